@@ -148,13 +148,10 @@ Definition sq_filename (testing : bool) : name :=
 Definition pw_filename (testing : bool) : name :=
   pw_ds_name testing ++ (DOT :: vtag PEEWEE_LATEST_VERSION) ++ DB_EXT.
 
-(* files that exist in the data dir once `sqlite3.connect`, the CREATEs, `PRAGMA
-   journal_mode=WAL` and the first commit have run (observed; only their first
-   component matters to the name test) *)
-Definition sq_created_files (testing : bool) : list name :=
-  [sq_filename testing;
-   sq_filename testing ++ [45; 115; 104; 109]   (* "-shm" *);
-   sq_filename testing ++ [45; 119; 97; 108]    (* "-wal" *)].
+(* what `sqlite3.connect`, the CREATEs, `PRAGMA journal_mode=WAL` and the first commit have
+   added to the data dir when check_for_migration lists it (observed: the database file only;
+   its -wal / -shm companions appear with the first write in WAL mode, i.e. later) *)
+Definition sq_created_files (testing : bool) : list name := [sq_filename testing].
 
 Inductive sqpath :=
   | DefaultPath                       (* filepath=None: <data dir>/sqlite[-testing].v1.db *)
